@@ -1,8 +1,446 @@
 /-
-C08 — property theorems (under construction; see DESIGN.md section 8).
+C08 — Retained messages: one per topic, delivered to new subscriptions with
+RETAIN = 1, forwarded to existing subscriptions with RETAIN = 0.
+
+Property theorems only (helper lemmas: `Proofs/BrokerFanout*.lean`).  Model:
+`Model/Broker.lean` (`retainStep`, `onPublish`, `subscribeLoop`, `sendRetained`,
+`srvSub`) over the retained trie of `Model/Topics.lean` and its finished
+theorems (`Properties/C06.lean`); specification: `Spec/Broker.lean`.
 -/
-import Mqtt.Model.Broker
-import Mqtt.Spec.Broker
+import Mqtt.Proofs.BrokerFanoutHistory
+
+set_option linter.unusedSimpArgs false
 
 namespace Mqtt.Properties.C08
+open Mqtt.Iface.Broker Mqtt.Model.Broker Mqtt.Proofs.Broker
+open Mqtt.Model.Topics (RMsg RNode)
+open Mqtt.Proofs.Topics (RWF absR good)
+open Mqtt.Spec.Match (split validName validFilter matchLevels)
+open Mqtt.Spec.Broker (subCode)
+
+def exConnect (c : Nat) (cid : Bytes) : Ev :=
+  .first c (.connect { protoName := [77, 81, 84, 84], version := 4, clean := true, will := none, clientId := cid }) true
+
+/-- example state: connection 1 holds "a/+" (QoS 1), connection 2 "#" (QoS 1),
+in-process subscriber 1000 "a/#" (QoS 1) -/
+def exState : B :=
+  (run {} [exConnect 1 [97], exConnect 2 [98], .srvSub 1000 [97, 47, 35] 1,
+           .packet 1 (.subscribe 1 [([97, 47, 43], 1)]),
+           .packet 2 (.subscribe 1 [([35], 1)])]).1
+
+/-! ### (f) forwards to existing subscriptions carry RETAIN = 0 -/
+
+/-- Every output of `onPublish` (any state, any message object - no
+hypothesis at all) is a PUBLISH with RETAIN = 0 written to a connection, or an
+invocation of an in-process callback. -/
+theorem C08_forward_retain_zero (b : B) (m : Msg) :
+    ∀ o ∈ (onPublish b m).2.2.1,
+      (∃ d w, o = .send d (.publish w) ∧ d < cbBase ∧ w.retain = false) ∨ (∃ cb w, o = .call cb w ∧ cbBase ≤ cb) := by
+  intro o ho
+  have := onPublish_out b m o ho
+  unfold fwdOk at this
+  split at this
+  · rename_i d w
+    simp only [Bool.and_eq_true, Bool.not_eq_true', decide_eq_true_eq] at this
+    exact Or.inl ⟨d, w, rfl, this.2, this.1⟩
+  · rename_i cb w
+    exact Or.inr ⟨cb, w, rfl, by simpa using this⟩
+  · cases this
+
+/-- the same for the loop itself -/
+theorem C08_fanout_retain_zero (b : B) (m : Msg) (subs : List (Nat × Nat)) :
+    ∀ d w, Out.send d (.publish w) ∈ (fanout b m subs).2.2 → w.retain = false := by
+  intro d w ho
+  have := fanout_out subs b m _ ho
+  simp only [fwdOk, Bool.and_eq_true, Bool.not_eq_true'] at this
+  exact this.1
+
+/-- On the whole step function: whatever the event - a PUBLISH of any QoS, a
+PUBREL releasing stored messages, the will at a connection end, the in-process
+`Publish`, ... - no PUBLISH with RETAIN = 1 is written to any connection,
+except by the retained delivery of a SUBSCRIBE packet. -/
+theorem C08_step_retain_zero (b : B) (e : Ev) (he : isSubscribeEv e = false) :
+    ∀ d w, Out.send d (.publish w) ∈ (step b e).2 → w.retain = false := by
+  intro d w ho
+  have := step_out b e he _ ho
+  simpa [noRetainSend] using this
+
+/-- the full statement: in-process callbacks included -/
+def C08_forward_retain_zero_full : Prop :=
+  ∀ (b : B) (m : Msg), ∀ o ∈ (onPublish b m).2.2.1,
+    match o with
+    | .send _ (.publish w) => w.retain = false
+    | .call _ w => w.retain = false
+    | _ => True
+
+/-- False of the code as it is (finding E10): an in-process callback is handed
+the publisher's message object as it is, RETAIN = 1 included. -/
+theorem C08_forward_retain_zero_callback_counterexample : ¬ C08_forward_retain_zero_full := by
+  intro h
+  have := h exState ⟨{ qos := 1, retain := true, topic := [97, 47, 98], pktid := 5, payload := [7] }, false⟩
+    (.call 1000 { qos := 1, retain := true, topic := [97, 47, 98], pktid := 5, payload := [7] }) (by decide)
+  exact absurd this (by decide)
+
+/-- non-vacuity: the retained QoS 1 PUBLISH "a/b" from connection 2 is
+acknowledged and forwarded with RETAIN = 0 to connections 1 and 2, RETAIN = 1
+to callback 1000 -/
+example :
+    (step exState (.packet 2 (.publish { qos := 1, retain := true, topic := [97, 47, 98], pktid := 5, payload := [7] }))).2 =
+      [.send 2 (.puback 5),
+       .call 1000 { qos := 1, retain := true, topic := [97, 47, 98], pktid := 5, payload := [7] },
+       .send 1 (.publish { qos := 1, retain := false, topic := [97, 47, 98], pktid := 5, payload := [7] }),
+       .send 2 (.publish { qos := 1, retain := false, topic := [97, 47, 98], pktid := 5, payload := [7] })] := by
+  decide
+
+/-! ### (g) the retain step: one message per topic, last non-empty one wins, empty clears -/
+
+/-- The retain step of `onPublish` on a well-formed retained trie, for a topic
+name without empty and without '$'-led levels (`good`; findings B3/B4 are
+outside).  RETAIN = 0: nothing changes.  RETAIN = 1 with an empty payload:
+exactly the entry under the topic's path disappears, every other entry stays.
+RETAIN = 1 with a non-empty payload: the entry under the topic's path is
+replaced by (or added as) one message with the PUBLISH's topic, QoS and payload
+and RETAIN = 1; every other entry stays.  The subscription trie, connections
+and sessions are never touched. -/
+theorem C08_retain_step_partial (b : B) (m : Msg) (hwf : RWF b.topics.rroot)
+    (hg : good m.p.topic = true) (hn : validName m.p.topic = true) :
+    RWF (retainStep b m).1.topics.rroot ∧
+    (m.p.retain = false → retainStep b m = (b, m)) ∧
+    (m.p.retain = true → m.p.payload = [] →
+      (absR (retainStep b m).1.topics.rroot).Perm
+        ((absR b.topics.rroot).filter (fun e => !(e.1 == split m.p.topic)))) ∧
+    (m.p.retain = true → m.p.payload ≠ [] →
+      ∃ r : RMsg, r.topic = m.p.topic ∧ r.qos = m.p.qos ∧ r.payload = m.p.payload ∧ r.retain = true ∧
+        (absR (retainStep b m).1.topics.rroot).Perm
+          ((absR b.topics.rroot).filter (fun e => !(e.1 == split m.p.topic)) ++ [(split m.p.topic, r)])) ∧
+    (retainStep b m).1.topics.sroot = b.topics.sroot ∧ (retainStep b m).1.conns = b.conns ∧
+    (retainStep b m).1.sess = b.sess := by
+  obtain ⟨e1, e2⟩ := Mqtt.Proofs.Topics.levels_valid m.p.topic hg
+    (Mqtt.Proofs.Topics.validName_validFilter _ hn)
+  have ht : m.p.topic ≠ [] := by
+    intro h0; rw [h0] at hn; exact absurd hn (by decide)
+  obtain ⟨f1, f2, f3, _, _⟩ := retainStep_frame b m
+  refine ⟨?_, retainStep_noretain b m, ?_, ?_, f1, f2, f3⟩
+  · cases hr : m.p.retain with
+    | false => rw [retainStep_noretain b m hr]; exact hwf
+    | true =>
+      by_cases hp : m.p.payload = []
+      · rw [(retainStep_clear b m hr hp).1]
+        exact Mqtt.Proofs.Topics.rremoveL_RWF _ _ _ hwf
+      · obtain ⟨r, _, _, _, _, _, hroot⟩ := retainStep_store b m hr hp e2 ht
+        rw [hroot]
+        exact Mqtt.Proofs.Topics.rinsertL_RWF _ _ _ _ hwf
+  · intro hr hp
+    rw [(retainStep_clear b m hr hp).1, e1, e2]
+    exact Mqtt.Proofs.Topics.rremoveL_absR _ _ hwf
+  · intro hr hp
+    obtain ⟨r, r1, r2, r3, r4, _, hroot⟩ := retainStep_store b m hr hp e2 ht
+    refine ⟨r, r1, r2, r3, r4, ?_⟩
+    rw [hroot, e1]
+    exact Mqtt.Proofs.Topics.rinsertL_absR _ _ _ hwf
+
+/-- "At most one retained message per topic": after a retained PUBLISH with a
+non-empty payload the trie holds exactly one message under the topic's path. -/
+theorem C08_one_per_topic_partial (b : B) (m : Msg) (hwf : RWF b.topics.rroot)
+    (hg : good m.p.topic = true) (hn : validName m.p.topic = true)
+    (hr : m.p.retain = true) (hp : m.p.payload ≠ []) :
+    ∃ r : RMsg, r.topic = m.p.topic ∧ r.qos = m.p.qos ∧ r.payload = m.p.payload ∧
+      ((absR (retainStep b m).1.topics.rroot).filter (fun e => e.1 == split m.p.topic)).Perm
+        [(split m.p.topic, r)] := by
+  obtain ⟨r, r1, r2, r3, _, hperm⟩ := (C08_retain_step_partial b m hwf hg hn).2.2.2.1 hr hp
+  refine ⟨r, r1, r2, r3, ?_⟩
+  have := hperm.filter (fun e => e.1 == split m.p.topic)
+  refine this.trans ?_
+  rw [List.filter_append, List.filter_filter]
+  simp
+
+/-- The retain step against the specification's retained store
+(`Spec.Broker.retainStep`: drop the topic's message, append the new one unless
+the payload is empty): if the trie holds exactly the messages `rets` - each
+under the path of its topic, with topic, QoS and payload as listed and
+RETAIN = 1 - then after the step it holds exactly the specification's next
+list.  By induction over histories: the retained message of a topic is the
+most recent retained PUBLISH with a non-empty payload since the last empty one. -/
+theorem C08_retain_refines_partial (b : B) (m : Msg) (rets : List Mqtt.Spec.Broker.Ret)
+    (h : RetInv b.topics.rroot rets) (hg : good m.p.topic = true) (hn : validName m.p.topic = true) :
+    RetInv (retainStep b m).1.topics.rroot (Mqtt.Spec.Broker.retainStep { rets := rets } m.p).rets :=
+  retainStep_refines b m rets h hg hn
+
+/-- the full statement: all valid topic names -/
+def C08_retain_refines_full : Prop :=
+  ∀ (b : B) (m : Msg) (rets : List Mqtt.Spec.Broker.Ret), RetInv b.topics.rroot rets → validName m.p.topic = true →
+    RetInv (retainStep b m).1.topics.rroot (Mqtt.Spec.Broker.retainStep { rets := rets } m.p).rets
+
+/-- False of the code as it is (finding B3): a retained message on "a/" (two
+levels, the second empty) is stored under the path of "a" and replaces the
+message retained there. -/
+theorem C08_retain_refines_full_counterexample : ¬ C08_retain_refines_full := by
+  intro h
+  let m0 : Msg := ⟨{ qos := 0, retain := true, topic := [97], payload := [1] }, false⟩
+  let m1 : Msg := ⟨{ qos := 0, retain := true, topic := [97, 47], payload := [2] }, false⟩
+  have h0 := retainStep_refines {} m0 [] RetInv_empty (by decide) (by decide)
+  have h1 := (h (retainStep {} m0).1 m1 _ h0 (by decide)).perm.length_eq
+  exact absurd h1 (by decide)
+
+/-- non-vacuity: store on "a/b", replace it, store on "a", clear "a/b" -/
+example :
+    let pub (t : Bytes) (q : Nat) (pl : Bytes) : Ev := .packet 2 (.publish { qos := q, retain := true, topic := t, payload := pl })
+    let b1 := (run exState [pub [97, 47, 98] 0 [1], pub [97, 47, 98] 0 [2], pub [97] 0 [3]]).1
+    let b2 := (step b1 (pub [97, 47, 98] 0 [])).1
+    (absR b1.topics.rroot).map retOf = [([[97]], ⟨[97], 0, [3]⟩), ([[97], [98]], ⟨[97, 47, 98], 0, [2]⟩)] ∧
+    (absR b2.topics.rroot).map retOf = [([[97]], ⟨[97], 0, [3]⟩)] := by
+  decide
+
+/-! ### stored messages survive all other traffic -/
+
+/-- "No matter what traffic happened since": an event that carries no
+application message into the broker (CONNECT, SUBSCRIBE, UNSUBSCRIBE, acks,
+pings, the in-process Subscribe/Unsubscribe) leaves the retained trie exactly
+as it is; and the fan-out part of a publish does not touch it either - after
+`onPublish` the store is what the retain step made of it. -/
+theorem C08_retained_untouched (b : B) (hinv : Inv b) :
+    (∀ e : Ev, carriesNoMessage e = true → (step b e).1.topics.rroot = b.topics.rroot) ∧
+    (∀ m : Msg, (onPublish b m).1.topics = (retainStep b m).1.topics) :=
+  ⟨fun e he => step_rroot b hinv e he, fun m => onPublish_topics b m⟩
+
+/-- "... or retained updates": a PUBLISH on one topic (retained or not, empty or
+not) leaves the messages stored for all other topics as they are. -/
+theorem C08_other_topics_untouched_partial (b : B) (m : Msg) (hinv : Inv b)
+    (hg : good m.p.topic = true) (hn : validName m.p.topic = true) :
+    ((absR (onPublish b m).1.topics.rroot).filter (fun e => !(e.1 == split m.p.topic))).Perm
+      ((absR b.topics.rroot).filter (fun e => !(e.1 == split m.p.topic))) := by
+  rw [onPublish_topics]
+  obtain ⟨_, h0, h1, h2, _⟩ := C08_retain_step_partial b m hinv.rwf hg hn
+  cases hr : m.p.retain with
+  | false => rw [h0 hr]
+  | true =>
+    by_cases hp : m.p.payload = []
+    · have := (h1 hr hp).filter (fun e => !(e.1 == split m.p.topic))
+      rw [List.filter_filter] at this
+      simpa using this
+    · obtain ⟨r, _, _, _, _, hperm⟩ := h2 hr hp
+      have := hperm.filter (fun e => !(e.1 == split m.p.topic))
+      rw [List.filter_append, List.filter_filter] at this
+      simpa using this
+
+/-! ### over histories: the most recent non-empty retained PUBLISH per topic -/
+
+/-- The specification's retained store, started empty and fed the accepted
+messages `ps` in order, holds for every topic `T` at most one message: that of
+the most recent PUBLISH with RETAIN = 1 on `T` if its payload is non-empty,
+nothing if that payload is empty (or there was no such PUBLISH). -/
+theorem C08_spec_most_recent (T : Bytes) (ps : List Pub) :
+    (specRets [] ps).filter (fun r => r.topic == T) =
+      match (ps.filter (fun p => p.retain && p.topic == T)).getLast? with
+      | some p => if p.payload.isEmpty then [] else [⟨T, p.qos, p.payload⟩]
+      | none => [] :=
+  specRets_char T ps
+
+/-- Histories.  From the initial state, along ANY sequence of moves - events
+that carry no application message (CONNECT, SUBSCRIBE, UNSUBSCRIBE, acks, pings,
+in-process Subscribe/Unsubscribe: `Act.ev`) interleaved with acceptances of
+messages on good valid topic names (`Act.pub`: `onPublish`) - the invariant
+holds and the retained trie holds exactly the specification's store for the
+accepted messages: by `C08_spec_most_recent`, per topic the most recent
+retained PUBLISH with a non-empty payload since the last empty one - topic, QoS
+and payload as received, no matter what happened in between. -/
+theorem C08_history_partial (acts : List Act) (hok : ∀ a ∈ acts, a.ok = true) :
+    Inv (acts.foldl actStep {}) ∧
+    RetInv (acts.foldl actStep {}).topics.rroot (specRets [] (pubsOf acts)) :=
+  acts_refine acts {} [] Inv_init RetInv_empty hok
+
+/-- non-vacuity: connect, retain "a" twice, subscribe, clear "a", retain "b", ping -/
+example :
+    let pub (t pl : Bytes) : Act := .pub ⟨{ qos := 1, retain := true, topic := t, pktid := 4, payload := pl }, false⟩
+    let acts : List Act := [.ev (exConnect 1 [97]), pub [97] [1], pub [97] [2], .ev (.packet 1 (.subscribe 1 [([35], 1)])),
+                            pub [97] [], pub [98] [3], .ev (.packet 1 .pingreq)]
+    (∀ a ∈ acts, a.ok = true) ∧ specRets [] (pubsOf acts) = [⟨[98], 1, [3]⟩] ∧
+    (absR (acts.foldl actStep {}).topics.rroot).map retOf = [([[98]], ⟨[98], 1, [3]⟩)] := by
+  decide
+
+/-! ### (h) a new subscription immediately receives exactly the matching retained messages -/
+
+/-- The SUBSCRIBE step without any hypothesis on the filters: after the SUBACK
+the connection is sent, per accepted filter in request order, the list
+`Retained(filter)` returned (`retainedOf`), each stored message `r` as
+`retainedPub r granted`: stored topic, payload, DUP and RETAIN flag, QoS
+min(stored, granted), the stored identifier (none at QoS 0).  Nothing else is
+written.  (`htop`: stored topics are non-empty - true of everything stored for a
+valid topic name.) -/
+theorem C08_subscribe_delivers_retained (b : B) (hinv : Inv b) (c id : Nat) (topics : List (Bytes × Nat))
+    (hl : b.alive c = true) (htop : ∀ e ∈ absR b.topics.rroot, e.2.topic ≠ []) :
+    (packet b c (.subscribe id topics)).2 =
+      Out.send c (.suback id (topics.map (fun tq => modelCode tq.1 tq.2))) ::
+      topics.flatMap (fun tq =>
+        if accepts tq.1 tq.2 then
+          (retainedOf b.topics tq.1).map (fun r =>
+            Out.send c (.publish (retainedPub r (min tq.2 Mqtt.Generated.maxQosAllowed))))
+        else []) :=
+  packet_subscribe_out b hinv c id topics hl htop
+
+/-- For requests whose filters have no empty and no '$'-led level (findings
+B3/B4 are outside): the output of the SUBSCRIBE step is the SUBACK with the
+specification's codes, followed - per granted filter, in request order - by the
+stored retained messages whose path matches the filter under section 4.7, in
+some order within the filter (Go map iteration), each with RETAIN = 1, QoS
+min(stored QoS, granted QoS), topic and payload as stored. -/
+theorem C08_subscribe_delivers_retained_partial (b : B) (hinv : Inv b) (c id : Nat)
+    (topics : List (Bytes × Nat)) (hl : b.alive c = true)
+    (htop : ∀ e ∈ absR b.topics.rroot, e.2.topic ≠ []) (hg : ∀ tq ∈ topics, good tq.1 = true) :
+    (packet b c (.subscribe id topics)).2 =
+      Out.send c (.suback id (topics.map (fun tq => subCode tq.1 tq.2))) ::
+      topics.flatMap (fun tq =>
+        if subCode tq.1 tq.2 = 0x80 then []
+        else (retainedOf b.topics tq.1).map (fun r => Out.send c (.publish (retainedPub r (subCode tq.1 tq.2))))) ∧
+    ∀ tq ∈ topics, subCode tq.1 tq.2 ≠ 0x80 →
+      (retainedOf b.topics tq.1).Perm
+        (((absR b.topics.rroot).filter (fun e => matchLevels (split tq.1) e.1)).map (·.2)) ∧
+      ∀ r ∈ retainedOf b.topics tq.1, (retainedPub r (subCode tq.1 tq.2)).retain = true := by
+  constructor
+  · rw [packet_subscribe_out b hinv c id topics hl htop]
+    congr 1
+    · congr 2
+      apply List.map_congr_left
+      intro tq htq
+      exact modelCode_good tq.1 tq.2 (hg tq htq)
+    · apply Mqtt.Proofs.Topics.flatMap_congr'
+      intro tq htq
+      obtain ⟨c1, c2⟩ := subCode_granted tq.1 tq.2
+      rw [accepts_good tq.1 tq.2 (hg tq htq)]
+      cases hcond : (validFilter tq.1 && decide (tq.2 ≤ 2)) with
+      | false =>
+        rw [hcond] at c1
+        have : subCode tq.1 tq.2 = 0x80 := by simpa using c1
+        simp [this]
+      | true =>
+        rw [hcond] at c1
+        have : subCode tq.1 tq.2 ≠ 0x80 := by simpa using c1
+        rw [if_neg this, c2 hcond]
+        simp only [↓reduceIte]
+  · intro tq htq hcode
+    obtain ⟨c1, _⟩ := subCode_granted tq.1 tq.2
+    have hcond : (validFilter tq.1 && decide (tq.2 ≤ 2)) = true := by
+      rw [← c1]; simpa using hcode
+    have hv : validFilter tq.1 = true := by simp only [Bool.and_eq_true] at hcond; exact hcond.1
+    obtain ⟨l, h1, h2⟩ := retained_char_good b.topics tq.1 hinv.rwf (hg tq htq) hv
+    have hro : retainedOf b.topics tq.1 = l := by simp [retainedOf, h1]
+    rw [hro]
+    refine ⟨h2, ?_⟩
+    intro r hr
+    have := h2.mem_iff.mp hr
+    obtain ⟨e, he, rfl⟩ := List.mem_map.mp this
+    exact hinv.rflag e (List.mem_filter.mp he).1
+
+/-- Against the reference broker: if the retained trie holds exactly the
+specification's retained messages (`RetInv`, maintained by
+`C08_retain_refines_partial`), then for every granted good filter the messages
+sent for it are - DUP bit and packet identifier apart, which the specification
+leaves open - exactly `Spec.Broker.retainedFor`: the retained messages whose
+topic matches, RETAIN = 1, QoS min(stored, granted), payload as stored. -/
+theorem C08_subscribe_retained_spec_partial (b : B) (rets : List Mqtt.Spec.Broker.Ret)
+    (h : RetInv b.topics.rroot rets) (t : Bytes) (q : Nat)
+    (hg : good t = true) (hgr : subCode t q ≠ 0x80) :
+    ((retainedOf b.topics t).map (fun r => normPub (retainedPub r (subCode t q)))).Perm
+      (Mqtt.Spec.Broker.retainedFor { rets := rets } t (subCode t q)) := by
+  obtain ⟨c1, _⟩ := subCode_granted t q
+  have hcond : (validFilter t && decide (q ≤ 2)) = true := by
+    rw [← c1]; simpa using hgr
+  have hv : validFilter t = true := by simp only [Bool.and_eq_true] at hcond; exact hcond.1
+  exact retained_spec b.topics rets h t _ hg hv
+
+/-- the full statement of the matching clause: all valid filters -/
+def C08_subscribe_delivers_retained_full : Prop :=
+  ∀ (b : B) (t : Bytes), Inv b → validFilter t = true →
+    (retainedOf b.topics t).Perm (((absR b.topics.rroot).filter (fun e => matchLevels (split t) e.1)).map (·.2))
+
+/-- False of the code as it is (finding B3): the filter "/a" (first level
+empty) is walked as "+/a" and returns the message retained for "x/a". -/
+theorem C08_subscribe_delivers_retained_full_counterexample : ¬ C08_subscribe_delivers_retained_full := by
+  intro h
+  let b : B := (run {} [.srvPub { qos := 0, retain := true, topic := [120, 47, 97], payload := [1] }]).1
+  have := (h b [47, 97] (Inv_run _ _ Inv_init) (by decide)).length_eq
+  exact absurd this (by decide)
+
+/-- non-vacuity: retained "a/b" (QoS 1) and "a" (QoS 0) are stored; connection
+1 subscribes "a/+" at QoS 0, "a/#/x" (rejected), "#" at QoS 2 -/
+def exRetState : B :=
+  (run exState [.packet 2 (.publish { qos := 1, retain := true, topic := [97, 47, 98], pktid := 9, payload := [1] }),
+                .packet 2 (.publish { qos := 0, retain := true, topic := [97], payload := [2] })]).1
+
+example :
+    Inv exRetState ∧ exRetState.alive 1 = true ∧
+    (absR exRetState.topics.rroot).map retOf = [([[97]], ⟨[97], 0, [2]⟩), ([[97], [98]], ⟨[97, 47, 98], 1, [1]⟩)] ∧
+    (packet exRetState 1 (.subscribe 3 [([97, 47, 43], 0), ([97, 47, 35, 47, 120], 1), ([35], 2)])).2 =
+      [.send 1 (.suback 3 [0, 0x80, 2]),
+       .send 1 (.publish { qos := 0, retain := true, topic := [97, 47, 98], pktid := 0, payload := [1] }),
+       .send 1 (.publish { qos := 0, retain := true, topic := [97], pktid := 0, payload := [2] }),
+       .send 1 (.publish { qos := 1, retain := true, topic := [97, 47, 98], pktid := 9, payload := [1] })] := by
+  refine ⟨Inv_run _ _ (Inv_run _ _ Inv_init), by decide, by decide, by decide⟩
+
+/-! ### (i) in-process subscribers get the retained set at subscribe time -/
+
+/-- `Server.Subscribe(filter, qos, callback)`: a rejected request returns an
+error and calls nothing; an accepted one calls the callback once per message
+`Retained(filter)` returned, with the stored topic, payload, RETAIN flag and
+QoS min(stored, granted) - and nothing else happens.  For a filter without
+empty and '$'-led levels these are exactly the stored messages whose path
+matches the filter under section 4.7, all with RETAIN = 1. -/
+theorem C08_srvSub_delivers_retained_partial (b : B) (hinv : Inv b) (cb : Nat) (f : Bytes) (q : Nat)
+    (hg : good f = true) :
+    (srvSub b cb f q).2 =
+      (if subCode f q = 0x80 then [.apiErr]
+       else (retainedOf b.topics f).map (fun r => Out.call cb (retainedCall r (subCode f q)))) ∧
+    (subCode f q ≠ 0x80 →
+      (retainedOf b.topics f).Perm
+        (((absR b.topics.rroot).filter (fun e => matchLevels (split f) e.1)).map (·.2)) ∧
+      ∀ r ∈ retainedOf b.topics f, (retainedCall r (subCode f q)).retain = true) := by
+  obtain ⟨c1, c2⟩ := subCode_granted f q
+  constructor
+  · rw [(srvSub_char b cb f q).1, accepts_good f q hg]
+    cases hcond : (validFilter f && decide (q ≤ 2)) with
+    | false =>
+      rw [hcond] at c1
+      have : subCode f q = 0x80 := by simpa using c1
+      simp [this]
+    | true =>
+      rw [hcond] at c1
+      have : subCode f q ≠ 0x80 := by simpa using c1
+      rw [if_neg this, c2 hcond]
+      simp only [↓reduceIte]
+  · intro hcode
+    have hcond : (validFilter f && decide (q ≤ 2)) = true := by
+      rw [← c1]; simpa using hcode
+    have hv : validFilter f = true := by simp only [Bool.and_eq_true] at hcond; exact hcond.1
+    obtain ⟨l, h1, h2⟩ := retained_char_good b.topics f hinv.rwf hg hv
+    have hro : retainedOf b.topics f = l := by simp [retainedOf, h1]
+    rw [hro]
+    refine ⟨h2, ?_⟩
+    intro r hr
+    have := h2.mem_iff.mp hr
+    obtain ⟨e, he, rfl⟩ := List.mem_map.mp this
+    exact hinv.rflag e (List.mem_filter.mp he).1
+
+/-- the callback's subscription itself is in the trie afterwards (and nothing else changed) -/
+theorem C08_srvSub_effect (b : B) (hinv : Inv b) (cb : Nat) (f : Bytes) (q : Nat) :
+    Inv (srvSub b cb f q).1 ∧
+    (Mqtt.Proofs.Topics.abs (srvSub b cb f q).1.topics.sroot).Perm
+      (if accepts f q then
+        addEntry (Mqtt.Proofs.Topics.abs b.topics.sroot) (Mqtt.Model.Topics.levels f).1 cb
+          (min q Mqtt.Generated.maxQosAllowed)
+       else Mqtt.Proofs.Topics.abs b.topics.sroot) ∧
+    (srvSub b cb f q).1.topics.rroot = b.topics.rroot := by
+  refine ⟨Inv_srvSub b cb f q hinv, ?_, ?_⟩
+  · rw [(srvSub_char b cb f q).2]
+    exact subscribe_abs b.topics f q cb hinv.wf
+  · rw [(srvSub_char b cb f q).2]
+    exact subscribe_rroot _ _ _ _ _
+
+/-- non-vacuity: callback 1001 subscribes "a/#" at QoS 0 and is called with both retained messages -/
+example :
+    (srvSub exRetState 1001 [97, 47, 35] 0).2 =
+      [.call 1001 { qos := 0, retain := true, topic := [97], pktid := 0, payload := [2] },
+       .call 1001 { qos := 0, retain := true, topic := [97, 47, 98], pktid := 9, payload := [1] }] ∧
+    (srvSub exRetState 1001 [97, 47, 35, 98] 0).2 = [.apiErr] := by
+  decide
+
 end Mqtt.Properties.C08
